@@ -18,8 +18,27 @@ use serde_json::{json, Value};
 use simcore::{arg, flag, mix, Journal, Rng, Stats};
 use zoo::*;
 
-/// wall-clock seconds one evaluation may take before the process is ended by SIGALRM
-const EVAL_ALARM_SECONDS: u32 = 20;
+/// CPU seconds (user+system of this process, ITIMER_PROF) one evaluation may consume before the process is ended by
+/// SIGPROF. CPU time, not wall-clock time: a descheduled or swapped-out worker on a busy machine must not look hung.
+const EVAL_CPU_SECONDS: i64 = 30;
+#[repr(C)]
+struct TimeVal {
+    tv_sec: i64,
+    tv_usec: i64,
+}
+#[repr(C)]
+struct ITimerVal {
+    it_interval: TimeVal,
+    it_value: TimeVal,
+}
+extern "C" {
+    fn setitimer(which: i32, new_value: *const ITimerVal, old_value: *mut ITimerVal) -> i32;
+}
+const ITIMER_PROF: i32 = 2;
+fn arm_cpu_watchdog(seconds: i64) {
+    let it = ITimerVal { it_interval: TimeVal { tv_sec: 0, tv_usec: 0 }, it_value: TimeVal { tv_sec: seconds, tv_usec: 0 } };
+    unsafe { setitimer(ITIMER_PROF, &it, std::ptr::null_mut()) };
+}
 
 struct Ctx {
     stats: Stats,
@@ -58,10 +77,10 @@ impl Ctx {
             let _ = f.write_all(format!("B {} {} {}\n", self.job, idx, cj).as_bytes());
         }
         // CPU-loop watchdog: a retry loop that never touches the device cannot be stopped by the device's call
-        // budget; SIGALRM ends the process, the driver attributes the death to this evaluation
-        unsafe { libc::alarm(EVAL_ALARM_SECONDS) };
+        // budget; SIGPROF (CPU-time timer) ends the process, the driver attributes the death to this evaluation
+        arm_cpu_watchdog(EVAL_CPU_SECONDS);
         let r = exec_in(case, env);
-        unsafe { libc::alarm(0) };
+        arm_cpu_watchdog(0);
         let out = match r {
             Ok(o) => o,
             Err(e) => {
@@ -1143,7 +1162,7 @@ fn main() {
                     }
                 }
             }
-            unsafe { libc::alarm(EVAL_ALARM_SECONDS) };
+            arm_cpu_watchdog(EVAL_CPU_SECONDS);
             let res: Result<EvalSummary, String> = if case.prop == "C06" && !flag(&args, "--no-fork") {
                 prepare(&case).and_then(|mut env| forked_summary(&case, &mut env, 6 << 30))
             } else {
